@@ -270,6 +270,22 @@ func TestPresentationSubmission_Resolve(t *testing.T) {
 		assert.Equal(t, vc1.ID, credentials["1"].ID)
 		assert.Equal(t, vc2.ID, credentials["2"].ID)
 	})
+	t.Run("input descriptor mapped more than once", func(t *testing.T) {
+		vp := vc.VerifiablePresentation{
+			VerifiableCredential: []vc.VerifiableCredential{vc1, vc2},
+		}
+		submission := PresentationSubmission{
+			DescriptorMap: []InputDescriptorMappingObject{
+				{Format: "ldp_vc", Id: "1", Path: "$.verifiableCredential[1]"},
+				{Format: "ldp_vc", Id: "1", Path: "$.verifiableCredential[0]"},
+			},
+		}
+
+		credentials, err := submission.Resolve(toEnvelope(t, vp))
+
+		assert.EqualError(t, err, "input descriptor '1' is mapped more than once")
+		assert.Nil(t, credentials)
+	})
 	t.Run("2 presentations, JSON-LD", func(t *testing.T) {
 		vp1 := vc.VerifiablePresentation{
 			VerifiableCredential: []vc.VerifiableCredential{vc1},
